@@ -23,6 +23,7 @@ KILLERS = {
     "GetRechecksParent": ([1, 2, 3], [["g3"], ["r3", "r2"]]),
     "ObsoleteReplacedNode": ([1, 2, 3, 4], [["i5"], ["i6"]]),
     "RemoveChecksNodeBeforeChildLock": ([1, 2, 3], [["r3"], ["r3", "i3"]]),
+    "IterChecksAfterNextRead": ([1, 2, 3, 4], [["sf"], ["r1"]]),
 }
 
 HOOK_OF_PC = {
@@ -44,6 +45,15 @@ HOOK_OF_PC = {
 }
 
 
+ITER_HOOKS = {"L_LOAD": ["f0", "k0", "t1", "k4", "s_call"], "F": ["f1", "k1", "t4", "t6", "n_rd", "n_gc", "k8"],
+              "SPIN": ["f_sp", "k_sp"],
+              "L_CHECK": ["f2", "k2", "k3", "t0", "t2", "t3", "t5", "t7", "n_top", "n_lu", "n_chk", "n_none", "n_gk",
+                          "k5", "k6", "k7", "k9", "k10", "k11", "k12", "k13", "k14", "k_pmu"]}
+for _k, _v in ITER_HOOKS.items():
+    for _p in _v:
+        HOOK_OF_PC[_p] = _k
+
+
 def hook_of(pc):
     if pc.endswith("_s"):
         return "SPIN"
@@ -51,16 +61,24 @@ def hook_of(pc):
 
 
 _prepared = False
+_prep_lock = __import__("threading").Lock()
 
 
 def prepare():
-    """copy the base module once (never while TLC jobs of this process may be reading it)"""
+    """copy the base modules once (never while TLC jobs of this process may be reading them)"""
+    global _prepared
+    with _prep_lock:
+        _prepare_locked()
+
+
+def _prepare_locked():
     global _prepared
     if not _prepared:
         os.makedirs(GEN, exist_ok=True)
         tmp = os.path.join(GEN, "OlcArt.tla.tmp%d" % os.getpid())
-        shutil.copy(os.path.join(vlib.SPEC, "OlcArt.tla"), tmp)
-        os.replace(tmp, os.path.join(GEN, "OlcArt.tla"))
+        for m in ("OlcArt.tla", "OlcArtIter.tla"):
+            shutil.copy(os.path.join(vlib.SPEC, m), tmp)
+            os.replace(tmp, os.path.join(GEN, m))
         _prepared = True
 
 
@@ -69,21 +87,33 @@ def gen(name, init, progs, **kw):
     return olcart_scen.generate(name, init, progs, outdir=GEN, **kw)
 
 
-def usable(sc):
-    """scenarios of the catalogue expressible in the model: point operations, keys < 2^24"""
+def usable(sc, scans=False):
+    """scenarios of the catalogue expressible in the model: keys < 2^24; point operations only,
+    or (scans=True) with scans on trees whose nodes stay in the two sorted classes"""
+    has_scan = False
     for p in sc.progs:
         for tok in p:
             if tok[0] not in "gir":
-                return False
+                has_scan = True
+    if has_scan != scans:
+        return False
+    if scans and len(sc.init) > 12:
+        return False
     return all(k < (1 << 24) for k in sc.init)
 
 
-def model_check(tier):
-    """exhaustive TLC over the point-operation catalogue; returns (generated, distinct, names)"""
-    scs = [s for s in scenarios.point_scenarios(tier) if usable(s)]
-    if tier == "quick":
-        # the largest trees are left to the thorough tier
-        scs = [s for s in scs if len(s.init) <= 17 and sum(len(p) for p in s.progs) <= 4]
+def model_check(tier, scans=False):
+    """exhaustive TLC over the point-operation catalogue (or, scans=True, the scanner/writer
+    catalogue with module OlcArtIter); returns (generated, distinct, names)"""
+    if scans:
+        scs = [s for s in scenarios.scan_scenarios(tier) if usable(s, True)]
+        if tier == "quick":
+            scs = [s for s in scs if len(s.progs) == 2 and sum(len(p) for p in s.progs) <= 3]
+    else:
+        scs = [s for s in scenarios.point_scenarios(tier) if usable(s)]
+        if tier == "quick":
+            # the largest trees are left to the thorough tier
+            scs = [s for s in scs if len(s.init) <= 17 and sum(len(p) for p in s.progs) <= 4]
 
     def work(sc):
         mod, d = gen(sc.name, sc.init, sc.progs, qeach=(sc.q == "each"), max_extra=4 + 3 * sum(len(p) for p in sc.progs))
@@ -188,6 +218,10 @@ SIG_SCENARIOS = [
     ("sig_grow", [1, 2, 3, 4], ["i5", "r5", "i65536", "r65537", "r9", "r131072"]),
     ("sig_two", [1, 257, 258], ["g257", "i65793", "r65793", "r1"]),
     ("sig_collapse", [1, 2, 257], ["r257", "i257", "r1", "r2"]),
+    ("sig_scan_two", [1, 2, 257, 258], ["sf", "sr", "ff2", "ff3", "fr200", "ff257", "R2-258", "R258-1", "ff300", "sfh2", "fr258h1"]),
+    ("sig_scan_leaf", [5], ["sf", "sr", "ff5", "ff6", "ff4", "fr4"]),
+    ("sig_scan_empty", [], ["sf", "sr", "ff5"]),
+    ("sig_scan_three", [1, 2, 3, 257, 258, 513], ["sf", "fr300", "ff4", "R3-513", "R513-2"]),
 ]
 
 
@@ -235,12 +269,12 @@ def real_signature(exe, name, init, prog, d):
     with open(evf) as f:
         for ln in f:
             e = json.loads(ln)
-            if e["e"] == "call":
+            if e["e"] in ("call", "scall"):
                 cur = []
             elif e["e"] == "step" and cur is not None:
                 k = e["k"]
                 cur.append("F" if k in ("F_LOAD", "F_STORE") else k)
-            elif e["e"] == "ret" and cur is not None:
+            elif e["e"] in ("ret", "sret") and cur is not None:
                 ops.append(cur)
                 cur = None
     return ops
